@@ -24,7 +24,7 @@ use serde::{Deserialize, Serialize};
 use serde_json::{Value, json};
 use shuttle::scheduler::{Schedule, Scheduler, Task, TaskId};
 use std::cell::{Cell, RefCell};
-use std::collections::BTreeMap;
+use std::collections::{BTreeMap, HashSet};
 use std::future::Future;
 use std::pin::pin;
 use std::sync::atomic::{AtomicBool, AtomicU64, AtomicUsize, Ordering};
@@ -47,9 +47,15 @@ const LABELS: [&str; 8] = [
 ];
 /// every shared-memory step of the protocol preceded by exactly one scheduling point
 const FULL: u32 = 0b0111_1011;
-/// FULL minus `wait:start` (the creation of the first `notified()` is then atomic with the
-/// entry of the waiter, which the thread-start scheduling point already separates from the guards)
-const REDUCED: u32 = 0b0111_0011;
+/// FULL minus `guard:before-take`.  In the harness a guard's drop is the first thing its
+/// thread does, so that point directly follows a scheduling point shuttle has anyway (the
+/// start of the thread) with no shared-memory step in between: it adds schedules but no new
+/// order of shared-memory steps.  The quick tier *checks* that claim: for every G <= 2
+/// configuration (and G = 3 with 1..2 guards dropped beforehand) the set of distinct orders of
+/// shared-memory steps reached under MIN equals the set reached under FULL.
+const MIN: u32 = 0b0111_1010;
+/// labels that are immediately followed by a shared-memory step (the trace alphabet)
+const PRE_OP: u32 = 0b0111_1011;
 
 fn label_bit(l: &str) -> u32 {
     LABELS.iter().position(|x| *x == l).map(|i| 1 << i).unwrap_or(0)
@@ -82,7 +88,7 @@ impl Cfg {
             self.guards,
             self.pre_dropped,
             self.rewait,
-            if self.mask == FULL { "full".to_string() } else if self.mask == REDUCED { "reduced".to_string() } else { format!("{:#b}", self.mask) }
+            if self.mask == FULL { "full".to_string() } else if self.mask == MIN { "min".to_string() } else { format!("{:#b}", self.mask) }
         )
     }
 }
@@ -98,12 +104,16 @@ struct Exec {
     log: Vec<(usize, &'static str)>,
     keep_log: bool,
     wakeups: u32,
+    /// rolling hash of the order of shared-memory steps: (role, label) of every PRE_OP label,
+    /// taken *after* the yield, i.e. immediately before the step executes
+    trace: u64,
 }
 
 #[derive(Default)]
 struct PartStats {
     classes: BTreeMap<String, u64>,
     blocked_execs: u64,
+    traces: HashSet<u64>,
 }
 
 thread_local! {
@@ -117,12 +127,11 @@ thread_local! {
 fn hook(label: &'static str) {
     if IN_SHUTTLE.with(|c| c.get()) {
         let me: usize = shuttle::current::me().into();
+        let bit = label_bit(label);
         let yield_here = EX.with(|e| {
             let mut e = e.borrow_mut();
-            if e.keep_log {
-                e.log.push((me, label));
-            }
             if label == "guard:after-take" {
+                // the decrement of this guard is complete
                 if let Some(i) = e.role.get(&me).copied() {
                     e.took[i] = true;
                 }
@@ -130,11 +139,24 @@ fn hook(label: &'static str) {
             if label == "wait:woken" {
                 e.wakeups += 1;
             }
-            e.mask & label_bit(label) != 0
+            e.mask & bit != 0
         });
         if yield_here {
             shuttle::thread::yield_now();
         }
+        // from here to the shared-memory step that follows the label there is no scheduling point
+        EX.with(|e| {
+            let mut e = e.borrow_mut();
+            if e.keep_log {
+                e.log.push((me, label));
+            }
+            if bit & PRE_OP != 0 {
+                let role = e.role.get(&me).copied().unwrap_or(0xff) as u64;
+                let mut h = e.trace ^ (role << 8 | bit as u64);
+                h = h.wrapping_mul(0x100000001b3);
+                e.trace = h ^ (h >> 29);
+            }
+        });
     } else {
         gate_hook(label);
     }
@@ -202,9 +224,10 @@ fn model(cfg: Cfg, keep_log: bool) {
     for h in handles {
         h.join().unwrap();
     }
-    let wakeups = EX.with(|e| e.borrow().wakeups);
+    let (wakeups, trace) = EX.with(|e| (e.borrow().wakeups, e.borrow().trace));
     STATS.with(|s| {
         let mut s = s.borrow_mut();
+        s.traces.insert(trace);
         let class = match wakeups {
             0 => "returned:without-blocking".to_string(),
             k => format!("returned:after-{k}-wakeups"),
@@ -458,6 +481,7 @@ fn explore_cfg(cfg: Cfg, depth: usize, threads: usize, deadline: Instant) -> Cfg
                         *a.stats.classes.entry(k).or_insert(0) += v;
                     }
                     a.stats.blocked_execs += st.blocked_execs;
+                    a.stats.traces.extend(st.traces);
                     if let Some(nd) = out.nondeterminism {
                         a.machinery.get_or_insert(nd);
                         stop.store(true, Ordering::Relaxed);
@@ -711,25 +735,39 @@ fn gate_hook(label: &'static str) {
 
 // ---------------------------------------------------------------------------------------
 
-fn configs(tier: Tier) -> Vec<(Cfg, usize)> {
-    // (configuration, partition depth)
+/// (configuration, partition depth, comparison group): configurations of one group differ only in
+/// the hook-point set and must reach the same set of shared-memory step orders.
+fn configs(tier: Tier) -> Vec<(Cfg, usize, Option<u32>)> {
+    if let Ok(s) = std::env::var("C41_ONLY") {
+        // measurement aid: "guards,pre_dropped,rewait(0|1),mask,depth"
+        let f: Vec<u32> = s.split(',').map(|x| x.trim().parse().expect("C41_ONLY field")).collect();
+        let cfg = Cfg { guards: f[0] as usize, pre_dropped: f[1] as usize, rewait: f[2] != 0, mask: f[3] };
+        return vec![(cfg, f[4] as usize, None)];
+    }
     let mut v = vec![];
+    let mut group = 0u32;
+    let mut both = |v: &mut Vec<(Cfg, usize, Option<u32>)>, guards: usize, pre_dropped: usize, rewait: bool, masks: &[u32], depth: usize| {
+        group += 1;
+        for m in masks {
+            v.push((Cfg { guards, pre_dropped, rewait, mask: *m }, depth, Some(group)));
+        }
+    };
     for g in 0..=2usize {
         for p in 0..=g {
-            v.push((Cfg { guards: g, pre_dropped: p, rewait: false, mask: FULL }, 6));
+            // G=2, p=0 additionally with all eight labels as scheduling points
+            let masks: &[u32] = if g == 2 && p == 0 { &[FULL, MIN, 0xff] } else if g == 1 && p == 0 { &[FULL, MIN, 0xff] } else { &[FULL, MIN] };
+            both(&mut v, g, p, false, masks, 6);
         }
     }
     for g in 0..=1usize {
-        v.push((Cfg { guards: g, pre_dropped: 0, rewait: true, mask: FULL }, 6));
+        both(&mut v, g, 0, true, &[FULL, MIN], 6);
     }
-    // all eight labels as scheduling points, small sizes
-    v.push((Cfg { guards: 1, pre_dropped: 0, rewait: false, mask: 0xff }, 6));
-    v.push((Cfg { guards: 2, pre_dropped: 0, rewait: false, mask: 0xff }, 8));
+    both(&mut v, 3, 2, false, &[FULL, MIN], 6);
+    both(&mut v, 3, 1, false, &[FULL, MIN], 8);
+    both(&mut v, 3, 0, false, &[MIN], 10);
     if tier == Tier::Thorough {
-        v.push((Cfg { guards: 2, pre_dropped: 0, rewait: true, mask: FULL }, 10));
-        v.push((Cfg { guards: 3, pre_dropped: 1, rewait: false, mask: FULL }, 8));
-        v.push((Cfg { guards: 3, pre_dropped: 2, rewait: false, mask: FULL }, 8));
-        v.push((Cfg { guards: 3, pre_dropped: 0, rewait: false, mask: REDUCED }, 12));
+        both(&mut v, 2, 0, true, &[MIN], 10);
+        both(&mut v, 3, 0, false, &[FULL], 12);
     }
     v
 }
@@ -787,14 +825,18 @@ fn main() {
     }
 
     // ---- part 1
-    let budget = Duration::from_secs(ctx.tier.pick(40, 780));
+    let budget = Duration::from_secs(
+        std::env::var("C41_BUDGET_S").ok().and_then(|s| s.parse().ok()).unwrap_or(ctx.tier.pick(45, 780)),
+    );
     let deadline = Instant::now() + budget;
     let mut per_cfg = vec![];
     let mut total_schedules = 0u64;
     let mut total_steps = 0u64;
     let mut nontrivial = 0u64;
     let mut failed = false;
-    for (cfg, depth) in configs(ctx.tier) {
+    let mut group_traces: BTreeMap<u32, (String, HashSet<u64>)> = BTreeMap::new();
+    let mut distinct_orders = 0u64;
+    for (cfg, depth, group) in configs(ctx.tier) {
         let t0 = Instant::now();
         let r = explore_cfg(cfg, depth, threads, deadline);
         if let Some(m) = &r.machinery {
@@ -829,11 +871,39 @@ fn main() {
                 Err(e) => machinery_error(&ctx.id, &format!("{}: shuttle DFS cross-check failed: {e}", cfg.name())),
             }
         }
+        if std::env::var("C41_ONLY").is_ok() {
+            println!("MEASURE {} schedules={} steps={} orders={} capped={} wall={:.1}", cfg.name(), r.schedules, r.steps, r.stats.traces.len(), r.capped, t0.elapsed().as_secs_f64());
+        }
         per_cfg.push(json!({
             "cfg": cfg.name(), "schedules": r.schedules, "scheduling_steps": r.steps, "partitions": r.partitions,
             "longest_schedule": r.max_len, "executions_where_waiter_blocked": r.stats.blocked_execs,
+            "distinct_orders_of_shared_steps": r.stats.traces.len(),
             "shuttle_dfs_count": shuttle_count, "wall_s": t0.elapsed().as_secs_f64(),
         }));
+        if r.failure.is_none() && !r.capped {
+            if let Some(g) = group {
+                match group_traces.get(&g) {
+                    None => {
+                        distinct_orders += r.stats.traces.len() as u64;
+                        group_traces.insert(g, (cfg.name(), r.stats.traces.clone()));
+                    }
+                    Some((other, set)) => {
+                        if *set != r.stats.traces {
+                            machinery_error(
+                                &ctx.id,
+                                &format!(
+                                    "hook-point sets are not equivalent: {} reaches {} orders of shared-memory steps, {} reaches {}",
+                                    other,
+                                    set.len(),
+                                    cfg.name(),
+                                    r.stats.traces.len()
+                                ),
+                            );
+                        }
+                    }
+                }
+            }
+        }
         if rep.wants_sample() {
             rep.sample(|| json!({"cfg": cfg, "schedules": r.schedules, "classes": r.stats.classes}));
         }
@@ -853,6 +923,7 @@ fn main() {
     rep.extra("distinct_nontrivial_by_construction", json!(nontrivial));
     rep.extra("counter_level_configs", json!(per_cfg));
     rep.extra("hook_labels", json!(LABELS));
+    rep.extra("distinct_orders_of_shared_steps_total", json!(distinct_orders));
 
     // ---- part 2
     if !failed {
